@@ -33,13 +33,18 @@ def rand_transparent(rng, depth):
             elif r < 0.65:
                 g = ("mf",) + tuple(go(d - 1) for _ in range(rng.choice([2, 3])))
             else:
-                g = (rng.choice(TRANSPARENT_UNARY), go(d - 1))
+                u = rng.choice(TRANSPARENT_UNARY)
+                body = go(d - 1)
+                if u in ("star", "plus") and gen.nullable(body, ENV_T):
+                    body = ("and", rng.choice([gen.A, gen.B, ("word", "ab")]), body)     # the property excludes nullable repetition bodies
+                g = (u, body)
         if rng.random() < 0.12:
             g = ("act", rng.choice([("raise", "fatal", 2), ("cond", 2, True, 3), ("cond", 2, False, 4), ("raise", "parse", 1)]), g)
         return g
     return go(depth)
 
 
+ENV_T0 = None
 ENV_T = {0: ("mf", ("andstop", 1, ("lit", "("), ("fwd", 0), ("lit", ")")), ("word", "ab"))}
 
 
@@ -117,7 +122,7 @@ def _oracle_case(g, env, inp):
 def correspond(ctx):
     corr.ensure_driver()
     rng = ctx.rng
-    n = 220 if not ctx.thorough else 1800
+    n = 600 if not ctx.thorough else 5000
     groups, cases = [], []
     for i in range(n):
         if i % 3 == 0:
@@ -169,9 +174,12 @@ def correspond(ctx):
 
 
 def search(ctx, reasons):
-    import random
+    import random, time
     rng = random.Random(ctx.seed + 4242)
+    t0 = time.time()
     for _ in range(1500 if not ctx.thorough else 12000):
+        if time.time() - t0 > (90 if not ctx.thorough else 600):
+            break
         g = rand_transparent(rng, rng.randint(2, 6))
         s = gen.sample_input(rng, g, ENV_T)
         for inp in (s, gen.mutate_input(rng, s)):
